@@ -1,7 +1,8 @@
 #!/bin/bash
 # apply a seeded patch to /repo, run the given check(s), undo: try_seed.sh <patch> <prop> [more props]
 P=$1; shift
+rm -rf /tmp/evid_backup; cp -r /verif/evidence /tmp/evid_backup
 git -C /repo apply $P || { echo "PATCH DOES NOT APPLY"; exit 9; }
 for prop in "$@"; do timeout 1500 python3 /verif/check.py $prop 2>&1 | cut -c1-260 | grep -E "VIOLATION|INCONCLUSIVE|KNOWN|exit=" | head -8; done
 git -C /repo checkout -- .
-git -C /verif checkout -- evidence 2>/dev/null; git -C /verif clean -fdq evidence/replays
+rm -rf /verif/evidence; cp -r /tmp/evid_backup /verif/evidence
